@@ -30,7 +30,9 @@ def log(*a):
 
 class Session:
     def __init__(self, keep=False):
-        self.dir = tempfile.mkdtemp(prefix='verif.', dir=os.environ.get('VERIF_SCRATCH_BASE', '/tmp'))
+        base = os.environ.get('VERIF_SCRATCH_BASE', '/tmp')
+        os.makedirs(base, exist_ok=True)
+        self.dir = tempfile.mkdtemp(prefix='verif.', dir=base)
         self.keep = keep
         atexit.register(self.cleanup)
         self.units = {}
